@@ -205,6 +205,9 @@ func runC13(c *Ctx) {
 	runC13Tags(c)
 	runC13Refs(c)
 	runC13Defaults(c)
+	runConfSubProvenance(c, "R8")
+	runC13OmitEmpty(c)
+	runC13NotifyClone(c)
 }
 
 // ---------- R3 validation walk ----------
@@ -589,6 +592,36 @@ func runC13Refs(c *Ctx) {
 				continue
 			}
 			c.Check(reaches, fmt.Sprintf("lookup #%d in %s: a miss is reported", i+1, l.field), p.Pos(l.in.Pos()), "miss side reaches an error return within the iteration", "a reference that is not configured does not produce an error")
+		}
+		// no success return bypasses a reference check: every `return nil` is reachable from the entry only through
+		// the (outermost) loop of every reference lookup
+		seenHdr := map[*ssa.BasicBlock]bool{}
+		for _, l := range lks {
+			var outer *ssa.BasicBlock
+			for _, b := range fn.Blocks {
+				hh, body := innermostLoop(b)
+				if hh != b || !body[l.in.Block()] {
+					continue
+				}
+				if outer == nil || b.Dominates(outer) {
+					outer = b
+				}
+			}
+			if outer == nil || seenHdr[outer] {
+				continue
+			}
+			seenHdr[outer] = true
+			bypass := ""
+			for _, r := range returnsOf(fn) {
+				if !isNilConst(resultsOf(r)[0]) {
+					continue
+				}
+				e := entryInstr(fn)
+				if e != nil && canReach(e, r, map[ssa.Instruction]bool{outer.Instrs[0]: true}) {
+					bypass = p.Pos(r.Pos())
+				}
+			}
+			c.Check(bypass == "", fmt.Sprintf("no successful return of Config.Validate bypasses the reference check on %s (loop #%d)", l.field, len(seenHdr)), p.Pos(l.in.Pos()), "every `return nil` lies behind the loop", "the success return at "+bypass+" can be reached without running this reference check: under that condition (e.g. a feature gate and an empty pipeline list) a dangling or ambiguous reference is accepted silently")
 		}
 	}
 	// pipelines config
